@@ -81,8 +81,12 @@ Definition task_csrc (k : task) : nat := match k with TSrcC _ c => c | _ => 0 en
 Definition task_ok (k : task) : Prop :=
   match k with TTrav _ ps | TReemit _ ps => ps <> [] | TSrcD _ c | TSrcC _ c => 0 < c | TFlush _ => True end.
 Definition pc_tasks (p : pc) : list task :=
+  match p with PHead (Some k) | PInner (Some k) => [k] | PEnq l => map snd l | _ => [] end.
+(* tasks whose dependency the thread holds *)
+Definition pc_locked (p : pc) : list task :=
   match p with PHead (Some k) | PInner (Some k) => [k] | _ => [] end.
 Definition held (s : st) : list task := flat_map pc_tasks (thr s).
+Definition locked (s : st) : list task := flat_map pc_locked (thr s).
 Definition all_tasks (s : st) : list task := map snd (queue s) ++ held s.
 Definition packets (s : st) : list nat :=
   flat_map snd (active s) ++ flat_map snd (local s) ++ flat_map task_pk (all_tasks s) ++ term s.
@@ -94,7 +98,7 @@ Definition bdeps (ks : list task) : list nat := flat_map (fun k => match dep_of 
 (* threads that will certainly fetch again before they can leave the loop *)
 Definition active_pc (p : pc) : bool :=
   match p with
-  | PStart | PIdle | PIdleFetch | PFetchInner | PElse | PHead (Some _) | PInner (Some _) => true
+  | PStart | PIdle | PIdleFetch | PFetchInner | PElse | PHead (Some _) | PInner (Some _) | PEnq _ => true
   | _ => false
   end.
 
@@ -130,14 +134,15 @@ Section Inv.
 
   Inductive trans : st -> st -> Prop :=
   | tr_move s t p0 p :          (* a control-point move that neither gains nor loses a task *)
-      get_thr s t = Some p0 -> pc_tasks p = pc_tasks p0 ->
+      get_thr s t = Some p0 -> pc_tasks p = pc_tasks p0 -> pc_locked p = pc_locked p0 ->
       (p = PExit -> flag s = false) -> (active_pc p = false -> active_pc p0 = false) ->
+      (forall l, p <> PEnq l) ->
       trans s (set_thr s t p)
   | tr_drop s t k :             (* pinned loop only: leave with a fetched task *)
       fixed_loop = false -> flag s = false -> get_thr s t = Some (PHead (Some k)) ->
       trans s (set_thr s t PExit)
   | tr_fetch s t p0 p i q k :
-      get_thr s t = Some p0 -> pc_tasks p0 = [] -> pc_tasks p = [k] ->
+      get_thr s t = Some p0 -> pc_tasks p0 = [] -> pc_tasks p = [k] -> pc_locked p0 = [] -> pc_locked p = [k] ->
       nth_error (queue s) i = Some (q, k) -> dep_free s (dep_of k) = true ->
       trans s (set_thr (take_dep (set_queue s (remove_nth i (queue s))) (dep_of k)) t p)
   | tr_none s t p0 p :          (* a fetch that returns NO_TASK *)
@@ -154,7 +159,13 @@ Section Inv.
       trans s (set_thr (enqueue (set_active s (adel (active s) (sg, d))) (match k with TReemit _ _ => 0 | _ => S q end) k) t PIdleFetch)
   | tr_run s t k r s1 ks :
       get_thr s t = Some (PInner (Some k)) -> run_body s k r = Some (s1, ks) ->
-      trans s (set_thr (enqueue_all (drop_dep s1 (dep_of k)) (r_qsel r) 0 ks) t PFetchInner).
+      trans s (set_thr (drop_dep s1 (dep_of k)) t (PEnq (assign_queues (r_qsel r) 0 ks)))
+  | tr_enq s t q k rest :
+      get_thr s t = Some (PEnq ((q, k) :: rest)) ->
+      trans s (set_thr (enqueue s q k) t (PEnq rest))
+  | tr_enq_done s t :
+      get_thr s t = Some (PEnq []) ->
+      trans s (set_thr s t PFetchInner).
 
   Lemma none_allowed_shared s t : none_allowed s t = true ->
     forall e, In e (queue s) -> fst e = 0 -> fetchable s e = false.
@@ -178,15 +189,15 @@ Section Inv.
 
   Lemma step_trans s l s' : step s l = Some s' -> trans s s'.
   Proof.
-    destruct l as [t i|t|t r|t sg d q|t|t|t|t|t]; cbn [C01_Defs.step].
+    destruct l as [t i|t|t r|t|t sg d q|t|t|t|t|t]; unfold C01_Defs.step; cbn [C01_Defs.step_g]; unfold loop_guard, term_guard.
     - (* fetch *)
-      destruct (get_thr s t) as [[| | | | | | | | |]|] eqn:G; try discriminate;
+      destruct (get_thr s t) as [[| | | | | | | | | |]|] eqn:G; try discriminate;
         match goal with |- context [do_fetch s i ?b] => destruct (do_fetch s i b) as [[k s1]|] eqn:F; [|discriminate] end;
         intros H; injection H as <-;
         destruct (do_fetch_inv _ _ _ _ _ F) as [q [Hn [Hd ->]]];
         eapply tr_fetch; eauto.
     - (* fetch none *)
-      destruct (get_thr s t) as [[| | | | | | | | |]|] eqn:G; try discriminate.
+      destruct (get_thr s t) as [[| | | | | | | | | |]|] eqn:G; try discriminate.
       + destruct (negb (existsb _ (queue s))) eqn:E; [|discriminate]. intros H; injection H as <-.
         eapply tr_none; eauto; [discriminate|].
         intros e He H0. apply negb_true_iff in E.
@@ -201,35 +212,47 @@ Section Inv.
       + destruct (none_allowed s t) eqn:E; [|discriminate]. intros H; injection H as <-.
         eapply tr_none; eauto; [discriminate|]. apply none_allowed_shared with t. exact E.
     - (* run *)
-      destruct (get_thr s t) as [[| [k|] | | | [k|] | | | | |]|] eqn:G; try discriminate.
+      destruct (get_thr s t) as [[| [k|] | | | [k|] | | | | | |]|] eqn:G; try discriminate.
       destruct (run_body s k r) as [[s1 ks]|] eqn:R; [|discriminate].
       intros H; injection H as <-. eapply tr_run; eauto.
+    - (* enqueue *)
+      destruct (get_thr s t) as [[| | | | | [|[q k] rest] | | | | |]|] eqn:G; try discriminate;
+        intros H; injection H as <-.
+      + eapply tr_enq_done; eauto.
+      + eapply tr_enq; eauto.
     - (* premature *)
-      destruct (get_thr s t) as [[| | | | | | | | |]|] eqn:G; try discriminate.
+      destruct (get_thr s t) as [[| | | | | | | | | |]|] eqn:G; try discriminate.
       destruct (aget (active s) (sg, d)) as [|x ps] eqn:A; [discriminate|].
       destruct (negb (memb sg (slocks s))) eqn:M; [|discriminate].
       destruct (launch_task ngb sg d (x :: ps)) as [k|] eqn:L; [|discriminate].
       intros H; injection H as <-. apply negb_true_iff in M.
       eapply tr_premature; eauto. discriminate.
-    - destruct (get_thr s t) as [[| | | | | | | | |]|] eqn:G; try discriminate.
-      intros H; injection H as <-. eapply tr_move; eauto. discriminate.
+    - destruct (get_thr s t) as [[| | | | | | | | | |]|] eqn:G; try discriminate.
+      intros H; injection H as <-. eapply tr_move; eauto; try discriminate; try (intros ?; discriminate).
     - (* head *)
-      destruct (get_thr s t) as [[| cur | | | | | | | |]|] eqn:G; try discriminate.
-      destruct (flag s || (fixed_loop && match cur with Some _ => true | None => false end)) eqn:C.
-      + intros H; injection H as <-. eapply tr_move; eauto; [destruct cur; reflexivity|destruct cur; discriminate|destruct cur; discriminate].
-      + intros H; injection H as <-. apply orb_false_elim in C as [Cf C2].
-        destruct cur as [k|].
-        * apply andb_false_elim in C2 as [C2|C2]; [|discriminate]. eapply tr_drop; eauto.
-        * eapply tr_move; eauto.
-    - destruct (get_thr s t) as [[| | | | [k|] | | | | |]|] eqn:G; try discriminate.
-      intros H; injection H as <-. eapply tr_move; eauto. discriminate.
-    - destruct (get_thr s t) as [[| | | | | | | | |]|] eqn:G; try discriminate.
-      intros H; injection H as <-. eapply tr_move; eauto. discriminate.
-    - destruct (get_thr s t) as [[| | | | | | | e | |]|] eqn:G; try discriminate.
+      destruct (get_thr s t) as [[| cur | | | | | | | | |]|] eqn:G; try discriminate.
+      destruct (flag s || (true && match cur with Some _ => true | None => false end)) eqn:C0.
+      + destruct (flag s || (fixed_loop && match cur with Some _ => true | None => false end)) eqn:C.
+        * intros H; injection H as <-. eapply tr_move; eauto; destruct cur; try reflexivity; try discriminate; try (intros ?; discriminate).
+        * intros H; injection H as <-. apply orb_false_elim in C as [Cf C2].
+          destruct cur as [k|].
+          -- apply andb_false_elim in C2 as [C2|C2]; [|discriminate]. eapply tr_drop; eauto.
+          -- eapply tr_move; eauto; try discriminate; try (intros ?; discriminate).
+      + destruct (flag s || (fixed_loop && match cur with Some _ => true | None => false end)) eqn:C.
+        * apply orb_false_elim in C0 as [Cf C2]. rewrite Cf in C. cbn in C2. destruct cur; [discriminate|].
+          rewrite andb_false_r in C. discriminate.
+        * intros H; injection H as <-. apply orb_false_elim in C as [Cf C2].
+          destruct cur as [k|]; [cbn in C0; rewrite orb_true_r in C0; discriminate|].
+          eapply tr_move; eauto; try discriminate; try (intros ?; discriminate).
+    - destruct (get_thr s t) as [[| | | | [k|] | | | | | |]|] eqn:G; try discriminate.
+      intros H; injection H as <-. eapply tr_move; eauto; try discriminate; try (intros ?; discriminate).
+    - destruct (get_thr s t) as [[| | | | | | | | | |]|] eqn:G; try discriminate.
+      intros H; injection H as <-. eapply tr_move; eauto; try discriminate; try (intros ?; discriminate).
+    - destruct (get_thr s t) as [[| | | | | | | | e | |]|] eqn:G; try discriminate.
       destruct (e && (done s =? NREQ)) eqn:C.
       + apply andb_prop in C as [-> C]. apply Nat.eqb_eq in C.
         intros H; injection H as <-. eapply tr_flag; eauto.
-      + intros H; injection H as <-. eapply tr_move; eauto. discriminate.
+      + intros H; injection H as <-. eapply tr_move; eauto; try discriminate; try (intros ?; discriminate).
   Qed.
 
   (* ---------- effect of the task bodies ---------- *)
@@ -494,7 +517,7 @@ Section Main.
     match k with TFlush _ | TReemit _ _ => q = 0 | _ => True end.
 
   (* the part of the invariant that depends on the threads only through the multiset H of tasks they hold *)
-  Record InvD (s : st) (H : list task) : Prop := {
+  Record InvD (s : st) (H L : list task) : Prop := {
     d_pk : Permutation (pk_act s ++ pk_loc s ++ flat_map task_pk (map snd (queue s) ++ H) ++ term s) (seq 0 (fresh s));
     d_done : done s = length (term s);
     d_src : fresh s + sum (map task_src (map snd (queue s) ++ H)) = NREQ;
@@ -503,17 +526,18 @@ Section Main.
     d_loc : nonempty_entries (local s);
     d_ok : Forall task_ok (map snd (queue s) ++ H);
     d_flag : flag s = false -> done s = NREQ;
-    d_sl : Permutation (slocks s) (sdeps H);
-    d_bl : Permutation (blocks s) (bdeps H);
+    d_sl : Permutation (slocks s) (sdeps L);
+    d_bl : Permutation (blocks s) (bdeps L);
     d_nd : NoDup (slocks s) /\ NoDup (blocks s);
     d_shq : Forall (fun e => shared_only (snd e) (fst e)) (queue s)
   }.
 
   Record Inv (s : st) : Prop := {
-    i_d : InvD s (held s);
+    i_d : InvD s (held s) (locked s);
+    i_pend : Forall (fun p => match p with PEnq l => Forall (fun e => shared_only (snd e) (fst e)) l | _ => True end) (thr s);
     i_exit : Forall (fun p => p = PExit -> flag s = false) (thr s);
     i_len : length (thr s) = NTHR;
-    i_live : existsb active_pc (thr s) = false -> held s = [] /\ Forall (fun e => fst e <> 0) (queue s)
+    i_live : existsb active_pc (thr s) = false -> held s = [] /\ locked s = [] /\ Forall (fun e => fst e <> 0) (queue s)
   }.
 
   (* rest of the threads when thread t is taken out *)
@@ -536,6 +560,19 @@ Section Main.
     rewrite !app_assoc. apply Permutation_app_tail. apply Permutation_app_comm.
   Qed.
 
+  Lemma locked_of s t p0 : get_thr s t = Some p0 -> Permutation (locked s) (pc_locked p0 ++ flat_map pc_locked (others s t)).
+  Proof.
+    unfold get_thr, locked. intros H. rewrite (nth_split _ _ _ H) at 1. unfold others.
+    rewrite !flat_map_app. cbn [flat_map].
+    rewrite !app_assoc. apply Permutation_app_tail. apply Permutation_app_comm.
+  Qed.
+
+  Lemma locked_set_thr s t p : Permutation (locked (set_thr s t p)) (pc_locked p ++ flat_map pc_locked (others s t)).
+  Proof.
+    unfold locked. rewrite thr_set. unfold others. rewrite !flat_map_app. cbn [flat_map].
+    rewrite !app_assoc. apply Permutation_app_tail. apply Permutation_app_comm.
+  Qed.
+
   Lemma existsb_set_thr s t p0 p : get_thr s t = Some p0 ->
     existsb active_pc (thr (set_thr s t p)) = active_pc p || existsb active_pc (others s t).
   Proof.
@@ -555,7 +592,14 @@ Section Main.
   Proof.
     induction l as [|p l IH]; cbn [existsb flat_map]; [reflexivity|].
     intros H. apply orb_false_elim in H as [H1 H2]. rewrite (IH H2), app_nil_r.
-    destruct p as [| [k|] | | | [k|] | | | | |]; cbn in *; try reflexivity; discriminate.
+    destruct p as [| [k|] | | | [k|] | l' | | | | |]; cbn in *; try reflexivity; discriminate.
+  Qed.
+
+  Lemma inactive_no_locked l : existsb active_pc l = false -> flat_map pc_locked l = [].
+  Proof.
+    induction l as [|p l IH]; cbn [existsb flat_map]; [reflexivity|].
+    intros H. apply orb_false_elim in H as [H1 H2]. rewrite (IH H2), app_nil_r.
+    destruct p as [| [k|] | | | [k|] | l' | | | | |]; cbn in *; try reflexivity; discriminate.
   Qed.
 
   Lemma In_firstn_ {A} (l : list A) n x : In x (firstn n l) -> In x l.
@@ -575,9 +619,9 @@ Section Main.
   Lemma bdeps_app a b : bdeps (a ++ b) = bdeps a ++ bdeps b.
   Proof. unfold bdeps. apply flat_map_app. Qed.
 
-  Lemma InvD_perm s H H' : Permutation H H' -> InvD s H -> InvD s H'.
+  Lemma InvD_perm s H H' L L' : Permutation H H' -> Permutation L L' -> InvD s H L -> InvD s H' L'.
   Proof.
-    intros P [A1 A2 A3 A4 A5 A6 A7 A8 A9 A10 A11 A12].
+    intros P PL [A1 A2 A3 A4 A5 A6 A7 A8 A9 A10 A11 A12].
     assert (PQ : Permutation (map snd (queue s) ++ H) (map snd (queue s) ++ H')) by (apply Permutation_app_head; exact P).
     constructor; try assumption.
     - rewrite <- A1. apply Permutation_app_head. apply Permutation_app_head. apply Permutation_app_tail.
@@ -585,8 +629,8 @@ Section Main.
     - rewrite <- A3. f_equal. apply sum_perm. apply Permutation_map. symmetry. exact PQ.
     - rewrite A4. apply sum_perm. apply Permutation_map. exact PQ.
     - eapply Permutation_Forall; [exact PQ|exact A7].
-    - rewrite A9. unfold sdeps. apply Permutation_flat_map. exact P.
-    - rewrite A10. unfold bdeps. apply Permutation_flat_map. exact P.
+    - rewrite A9. unfold sdeps. apply Permutation_flat_map. exact PL.
+    - rewrite A10. unfold bdeps. apply Permutation_flat_map. exact PL.
   Qed.
 
   Lemma memb_false_notin x l : memb x l = false -> ~ In x l.
@@ -610,50 +654,45 @@ Section Main.
     destruct (Nat.eqb x z); [right; exact Hin|]. destruct Hin; [left; assumption|right; auto].
   Qed.
 
-  Lemma enqueue_all_queue : forall ks s qsel n,
-    map snd (queue (enqueue_all s qsel n ks)) = map snd (queue s) ++ ks
-    /\ active (enqueue_all s qsel n ks) = active s /\ local (enqueue_all s qsel n ks) = local s
-    /\ slocks (enqueue_all s qsel n ks) = slocks s /\ blocks (enqueue_all s qsel n ks) = blocks s
-    /\ cont_rem (enqueue_all s qsel n ks) = cont_rem s /\ done (enqueue_all s qsel n ks) = done s
-    /\ term (enqueue_all s qsel n ks) = term s /\ fresh (enqueue_all s qsel n ks) = fresh s
-    /\ flag (enqueue_all s qsel n ks) = flag s /\ thr (enqueue_all s qsel n ks) = thr s
-    /\ (Forall (fun e => shared_only (snd e) (fst e)) (queue s) -> Forall (fun e => shared_only (snd e) (fst e)) (queue (enqueue_all s qsel n ks))).
+  Lemma assign_queues_spec qsel : forall ks n,
+    map snd (assign_queues qsel n ks) = ks /\ Forall (fun e => shared_only (snd e) (fst e)) (assign_queues qsel n ks).
   Proof.
-    induction ks as [|k ks IH]; intros s qsel n; cbn [enqueue_all].
-    - rewrite app_nil_r. repeat split; auto.
-    - destruct (IH (enqueue s (match k with TReemit _ _ => 0 | TFlush _ => 0 | _ => S (qsel n) end) k) qsel (S n))
-        as (A1 & A2 & A3 & A4 & A5 & A6 & A7 & A8 & A9 & A10 & A11 & A12).
-      rewrite A1, A2, A3, A4, A5, A6, A7, A8, A9, A10, A11.
-      unfold enqueue, set_queue. cbn [queue active local slocks blocks cont_rem done term fresh flag thr].
-      rewrite map_app. cbn [map snd]. rewrite <- app_assoc. repeat split; auto.
-      intros HF. apply A12. unfold enqueue, set_queue. cbn [queue]. apply Forall_app. split; [exact HF|].
-      constructor; [|constructor]. destruct k; cbn; auto.
+    induction ks as [|k ks IH]; intros n; cbn [assign_queues map]; [split; [reflexivity|constructor]|].
+    destruct (IH (S n)) as [E F]. split; [cbn [snd]; rewrite E; reflexivity|].
+    constructor; [destruct k; cbn; auto|exact F].
   Qed.
 
-  Lemma InvD_ext s s' H :
+  Lemma InvD_ext s s' H L :
     queue s' = queue s -> active s' = active s -> local s' = local s -> slocks s' = slocks s -> blocks s' = blocks s ->
     cont_rem s' = cont_rem s -> done s' = done s -> term s' = term s -> fresh s' = fresh s -> flag s' = flag s ->
-    InvD s H -> InvD s' H.
+    InvD s H L -> InvD s' H L.
   Proof.
     intros E1 E2 E3 E4 E5 E6 E7 E8 E9 E10 [A1 A2 A3 A4 A5 A6 A7 A8 A9 A10 A11 A12].
     constructor; unfold pk_act, pk_loc in *; rewrite ?E1, ?E2, ?E3, ?E4, ?E5, ?E6, ?E7, ?E8, ?E9, ?E10; assumption.
   Qed.
 
+  Definition pend_ok (p : pc) : Prop :=
+    match p with PEnq l => Forall (fun e => shared_only (snd e) (fst e)) l | _ => True end.
+
   (* ---- control-point moves ---- *)
-  Lemma inv_move s t p0 p : Inv s -> get_thr s t = Some p0 -> pc_tasks p = pc_tasks p0 ->
-    (p = PExit -> flag s = false) -> (active_pc p = false -> active_pc p0 = false) -> Inv (set_thr s t p).
+  Lemma inv_move s t p0 p : Inv s -> get_thr s t = Some p0 -> pc_tasks p = pc_tasks p0 -> pc_locked p = pc_locked p0 ->
+    (p = PExit -> flag s = false) -> (active_pc p = false -> active_pc p0 = false) -> pend_ok p -> Inv (set_thr s t p).
   Proof.
-    intros [D E N L] G Hp Hx Ha.
+    intros [D Pd E N L] G Hp Hl Hx Ha Hpe.
     assert (PH : Permutation (held (set_thr s t p)) (held s)).
     { rewrite held_set_thr, (held_of s t p0 G), Hp. reflexivity. }
+    assert (PL : Permutation (locked (set_thr s t p)) (locked s)).
+    { rewrite locked_set_thr, (locked_of s t p0 G), Hl. reflexivity. }
     constructor.
-    - apply (InvD_ext s); try reflexivity. apply (InvD_perm s (held s)); [symmetry; exact PH|]. exact D.
+    - apply (InvD_ext s); try reflexivity. apply (InvD_perm s (held s) _ (locked s)); [symmetry; exact PH|symmetry; exact PL|]. exact D.
+    - apply Forall_set_thr; [exact Pd|exact Hpe].
     - apply Forall_set_thr; [exact E|exact Hx].
     - rewrite (len_set_thr s t p0 p G). exact N.
     - intros Hn. rewrite (existsb_set_thr s t p0 p G) in Hn. apply orb_false_elim in Hn as [Hn1 Hn2].
       assert (existsb active_pc (thr s) = false) as Hs by (rewrite (existsb_thr s t p0 G), (Ha Hn1), Hn2; reflexivity).
-      destruct (L Hs) as [L1 L2]. split; [|exact L2].
-      apply Permutation_nil. rewrite <- L1. symmetry. exact PH.
+      destruct (L Hs) as (L1 & L2 & L3). split; [|split; [|exact L3]].
+      + apply Permutation_nil. rewrite <- L1. symmetry. exact PH.
+      + apply Permutation_nil. rewrite <- L2. symmetry. exact PL.
   Qed.
 
   (* ---- fetching a task ---- *)
@@ -663,10 +702,11 @@ Section Main.
   Proof. reflexivity. Qed.
 
   Lemma inv_fetch s t p0 p i q k : Inv s -> get_thr s t = Some p0 -> pc_tasks p0 = [] -> pc_tasks p = [k] ->
+    pc_locked p0 = [] -> pc_locked p = [k] ->
     nth_error (queue s) i = Some (q, k) -> dep_free s (dep_of k) = true ->
     Inv (set_thr (take_dep (set_queue s (remove_nth i (queue s))) (dep_of k)) t p).
   Proof.
-    intros [D E N L] G Hp0 Hp Hn Hf.
+    intros [D Pd E N L] G Hp0 Hp Hl0 Hl Hn Hf.
     set (s1 := take_dep (set_queue s (remove_nth i (queue s))) (dep_of k)).
     assert (Hthr : thr s1 = thr s) by (unfold s1; destruct (dep_of k); reflexivity).
     assert (Hflag : flag s1 = flag s) by (unfold s1; destruct (dep_of k); reflexivity).
@@ -674,6 +714,9 @@ Section Main.
     assert (PH : Permutation (held (set_thr s1 t p)) (k :: held s)).
     { rewrite held_set_thr, Hp. unfold others. rewrite Hthr. cbn [app].
       apply perm_skip. rewrite (held_of s t p0 G), Hp0. reflexivity. }
+    assert (PL : Permutation (locked (set_thr s1 t p)) (k :: locked s)).
+    { rewrite locked_set_thr, Hl. unfold others. rewrite Hthr. cbn [app].
+      apply perm_skip. rewrite (locked_of s t p0 G), Hl0. reflexivity. }
     pose proof (remove_nth_perm _ _ _ Hn) as PQ.
     assert (PQ' : Permutation (map snd (queue s)) (k :: map snd (remove_nth i (queue s)))).
     { rewrite PQ at 1. reflexivity. }
@@ -681,7 +724,7 @@ Section Main.
     { rewrite PQ'. cbn [app]. apply Permutation_middle. }
     destruct D as [A1 A2 A3 A4 A5 A6 A7 A8 A9 A10 [N1 N2] A12].
     constructor.
-    - apply (InvD_perm _ (k :: held s)); [symmetry; exact PH|].
+    - apply (InvD_perm _ (k :: held s) _ (k :: locked s)); [symmetry; exact PH|symmetry; exact PL|].
       unfold dep_free in Hf. unfold s1.
       constructor; unfold pk_act, pk_loc in *;
         destruct (dep_of k) eqn:Ed;
@@ -697,37 +740,45 @@ Section Main.
         try (split; [try assumption|try assumption]; constructor; [apply memb_false_notin; apply negb_true_iff; exact Hf|assumption]);
         try (split; assumption);
         try (rewrite Forall_forall in *; intros e He; apply A12; apply (Permutation_in e (Permutation_sym PQ)); right; exact He).
+    - apply Forall_set_thr; [rewrite Hthr; exact Pd|].
+      destruct p as [| [k'|] | | | [k'|] | l' | | | | |]; cbn in Hl |- *; try exact I; discriminate.
     - apply Forall_set_thr.
       + rewrite Hthr. eapply Forall_impl; [|exact E]. intros a Ha Hx. cbn [flag set_thr]. rewrite Hflag. auto.
       + intros ->. cbn in Hp. discriminate.
     - rewrite (len_set_thr s1 t p0 p G1), Hthr. exact N.
     - intros Hn'. exfalso. rewrite (existsb_set_thr s1 t p0 p G1) in Hn'.
       apply orb_false_elim in Hn' as [Hn1 _].
-      destruct p as [| [k'|] | | | [k'|] | | | | |]; cbn in Hp, Hn1; discriminate.
+      destruct p as [| [k'|] | | | [k'|] | l' | | | | |]; cbn in Hl, Hn1; discriminate.
   Qed.
 
   (* ---- a fetch that returns NO_TASK ---- *)
   Lemma deps_nil_free s k : slocks s = [] -> blocks s = [] -> dep_free s (dep_of k) = true.
   Proof. intros H1 H2. unfold dep_free. destruct (dep_of k); [reflexivity|rewrite H1|rewrite H2]; reflexivity. Qed.
 
-  Lemma inv_none s t p0 p : Inv s -> get_thr s t = Some p0 -> pc_tasks p0 = [] -> pc_tasks p = [] -> active_pc p = false ->
+  Lemma inv_none s t p0 p : Inv s -> get_thr s t = Some p0 -> pc_tasks p0 = [] -> pc_tasks p = [] ->
+    pc_locked p0 = [] -> pc_locked p = [] -> active_pc p = false ->
     (p = PExit -> False) ->
     (forall e, In e (queue s) -> fst e = 0 -> fetchable s e = false) -> Inv (set_thr s t p).
   Proof.
-    intros [D E N L] G Hp0 Hp Hina Hne Hsh.
+    intros [D Pd E N L] G Hp0 Hp Hl0 Hl Hina Hne Hsh.
     assert (PH : Permutation (held (set_thr s t p)) (held s)).
     { rewrite held_set_thr, (held_of s t p0 G), Hp, Hp0. reflexivity. }
+    assert (PL : Permutation (locked (set_thr s t p)) (locked s)).
+    { rewrite locked_set_thr, (locked_of s t p0 G), Hl, Hl0. reflexivity. }
     constructor.
-    - apply (InvD_ext s); try reflexivity. apply (InvD_perm s (held s)); [symmetry; exact PH|]. exact D.
+    - apply (InvD_ext s); try reflexivity. apply (InvD_perm s (held s) _ (locked s)); [symmetry; exact PH|symmetry; exact PL|]. exact D.
+    - apply Forall_set_thr; [exact Pd|]. destruct p; cbn in Hina |- *; try exact I; discriminate.
     - apply Forall_set_thr; [exact E|]. intros X. exfalso. exact (Hne X).
     - rewrite (len_set_thr s t p0 p G). exact N.
     - intros Hn. rewrite (existsb_set_thr s t p0 p G) in Hn. apply orb_false_elim in Hn as [_ Hn2].
-      (* nobody else is active, hence nobody holds a task or a lock, hence everything queued is fetchable *)
       assert (Hh : held s = []).
       { apply Permutation_nil. rewrite (held_of s t p0 G), Hp0. cbn [app]. rewrite (inactive_no_tasks _ Hn2). reflexivity. }
-      split.
+      assert (Hlk : locked s = []).
+      { apply Permutation_nil. rewrite (locked_of s t p0 G), Hl0. cbn [app]. rewrite (inactive_no_locked _ Hn2). reflexivity. }
+      split; [|split].
       + apply Permutation_nil. rewrite <- Hh. symmetry. exact PH.
-      + destruct D as [_ _ _ _ _ _ _ _ A9 A10 _ _]. rewrite Hh in A9, A10. cbn in A9, A10.
+      + apply Permutation_nil. rewrite <- Hlk. symmetry. exact PL.
+      + destruct D as [_ _ _ _ _ _ _ _ A9 A10 _ _]. rewrite Hlk in A9, A10. cbn in A9, A10.
         apply Permutation_sym, Permutation_nil in A9. apply Permutation_sym, Permutation_nil in A10.
         apply Forall_forall. intros e He H0. cbn [queue set_thr] in He.
         specialize (Hsh e He H0). unfold fetchable in Hsh. rewrite (deps_nil_free s (snd e) A9 A10) in Hsh. discriminate.
@@ -737,22 +788,26 @@ Section Main.
   Lemma inv_flag s t e : Inv s -> get_thr s t = Some (PCheck2 e) -> done s = NREQ ->
     Inv (set_thr (mkSt (queue s) (active s) (local s) (slocks s) (blocks s) (cont_rem s) (flushed s) (done s) (term s) (fresh s) false (thr s)) t (PHead None)).
   Proof.
-    intros [D E N L] G Hd.
+    intros [D Pd E N L] G Hd.
     set (s1 := mkSt (queue s) (active s) (local s) (slocks s) (blocks s) (cont_rem s) (flushed s) (done s) (term s) (fresh s) false (thr s)).
     assert (G1 : get_thr s1 t = Some (PCheck2 e)) by exact G.
     assert (PH : Permutation (held (set_thr s1 t (PHead None))) (held s)).
     { rewrite held_set_thr. unfold others. cbn [thr s1]. rewrite (held_of s t _ G). reflexivity. }
+    assert (PL : Permutation (locked (set_thr s1 t (PHead None))) (locked s)).
+    { rewrite locked_set_thr. unfold others. cbn [thr s1]. rewrite (locked_of s t _ G). reflexivity. }
     constructor.
-    - apply (InvD_perm _ (held s)); [symmetry; exact PH|].
+    - apply (InvD_perm _ (held s) _ (locked s)); [symmetry; exact PH|symmetry; exact PL|].
       destruct D as [A1 A2 A3 A4 A5 A6 A7 A8 A9 A10 A11 A12].
       constructor; unfold pk_act, pk_loc in *; cbn [queue active local slocks blocks cont_rem flushed done term fresh flag thr set_thr s1]; try assumption.
       intros _. exact Hd.
+    - apply Forall_set_thr; [exact Pd|exact I].
     - apply Forall_set_thr; [|discriminate]. cbn [thr s1]. apply Forall_forall. intros x _ _. reflexivity.
     - rewrite (len_set_thr s1 t _ _ G1). exact N.
     - intros Hn. rewrite (existsb_set_thr s1 t _ _ G1) in Hn. apply orb_false_elim in Hn as [_ Hn2].
       assert (Hs : existsb active_pc (thr s) = false) by (rewrite (existsb_thr s t _ G); exact Hn2).
-      destruct (L Hs) as [L1 L2]. split; [|exact L2].
-      apply Permutation_nil. rewrite <- L1. symmetry. exact PH.
+      destruct (L Hs) as (L1 & L2 & L3). split; [|split; [|exact L3]].
+      + apply Permutation_nil. rewrite <- L1. symmetry. exact PH.
+      + apply Permutation_nil. rewrite <- L2. symmetry. exact PL.
   Qed.
 
   (* ---- premature launch of a partially filled buffer ---- *)
@@ -769,14 +824,16 @@ Section Main.
     launch_task ngb sg d ps = Some k ->
     Inv (set_thr (enqueue (set_active s (adel (active s) (sg, d))) (match k with TReemit _ _ => 0 | _ => S q end) k) t PIdleFetch).
   Proof.
-    intros [D E N L] G Ha Hne Hl.
+    intros [D Pd E N L] G Ha Hne Hl.
     destruct (launch_facts _ _ _ _ Hl Hne) as (K1 & K2 & K3 & K4 & K5).
     set (s1 := enqueue (set_active s (adel (active s) (sg, d))) (match k with TReemit _ _ => 0 | _ => S q end) k).
     assert (G1 : get_thr s1 t = Some PIdle) by exact G.
     assert (PH : Permutation (held (set_thr s1 t PIdleFetch)) (held s)).
     { rewrite held_set_thr. unfold others. cbn [thr s1 enqueue set_queue set_active]. rewrite (held_of s t _ G). reflexivity. }
+    assert (PL : Permutation (locked (set_thr s1 t PIdleFetch)) (locked s)).
+    { rewrite locked_set_thr. unfold others. cbn [thr s1 enqueue set_queue set_active]. rewrite (locked_of s t _ G). reflexivity. }
     constructor.
-    - apply (InvD_perm _ (held s)); [symmetry; exact PH|].
+    - apply (InvD_perm _ (held s) _ (locked s)); [symmetry; exact PH|symmetry; exact PL|].
       destruct D as [A1 A2 A3 A4 A5 A6 A7 A8 A9 A10 A11 A12].
       pose proof (aget_adel (active s) (sg, d)) as PA. rewrite Ha in PA.
       constructor; unfold pk_act, pk_loc in *;
@@ -791,12 +848,13 @@ Section Main.
       + rewrite map_app. cbn [map snd]. rewrite <- ?app_assoc. apply Forall_app in A7 as [F1 F2].
         apply Forall_app. split; [exact F1|]. constructor; [exact K4|exact F2].
       + apply Forall_app. split; [exact A12|]. constructor; [|constructor]. cbn [fst snd]. apply K5.
+    - apply Forall_set_thr; [exact Pd|exact I].
     - apply Forall_set_thr; [exact E|discriminate].
     - rewrite (len_set_thr s1 t _ _ G1). exact N.
     - intros Hn. exfalso. rewrite (existsb_set_thr s1 t _ _ G1) in Hn. cbn in Hn. discriminate.
   Qed.
 
-  (* ---- running a task ---- *)
+  (* ---- running a task: body, unlock, free; the new tasks are pending ---- *)
   Lemma drop_dep_fields s d :
     queue (drop_dep s d) = queue s /\ active (drop_dep s d) = active s /\ local (drop_dep s d) = local s
     /\ cont_rem (drop_dep s d) = cont_rem s /\ done (drop_dep s d) = done s /\ term (drop_dep s d) = term s
@@ -805,25 +863,28 @@ Section Main.
 
   Lemma inv_run s t k r s1 ks : Inv s -> get_thr s t = Some (PInner (Some k)) ->
     run_body CAP NTHR reemit ngb s k r = Some (s1, ks) ->
-    Inv (set_thr (enqueue_all (drop_dep s1 (dep_of k)) (r_qsel r) 0 ks) t PFetchInner).
+    Inv (set_thr (drop_dep s1 (dep_of k)) t (PEnq (assign_queues (r_qsel r) 0 ks))).
   Proof.
-    intros [D E N L] G Hb.
+    intros [D Pd E N L] G Hb.
     destruct D as [A1 A2 A3 A4 A5 A6 A7 A8 A9 A10 [N1 N2] A12].
     set (rest := flat_map pc_tasks (others s t)).
+    set (restL := flat_map pc_locked (others s t)).
     assert (PHs : Permutation (held s) (k :: rest)) by (rewrite (held_of s t _ G); reflexivity).
+    assert (PLs : Permutation (locked s) (k :: restL)) by (rewrite (locked_of s t _ G); reflexivity).
     assert (Hokk : task_ok k).
     { rewrite Forall_forall in A7. apply A7. apply in_or_app. right. apply (Permutation_in k (Permutation_sym PHs)). left. reflexivity. }
     destruct (body_spec CAP NTHR reemit ngb CAP_pos s k r s1 ks Hb Hokk A5 A6)
       as (B1 & B2 & B3 & B4 & B5 & BP & BF & BD & BS & BC1 & BC2 & BA & BL & BO & BT).
     set (s2 := drop_dep s1 (dep_of k)).
     destruct (drop_dep_fields s1 (dep_of k)) as (F1 & F2 & F3 & F4 & F5 & F6 & F7 & F8 & F9). fold s2 in F1, F2, F3, F4, F5, F6, F7, F8, F9.
-    destruct (enqueue_all_queue ks s2 (r_qsel r) 0) as (Q1 & Q2 & Q3 & Q4 & Q5 & Q6 & Q7 & Q8 & Q9 & Q10 & Q11 & Q12).
-    set (s3 := enqueue_all s2 (r_qsel r) 0 ks) in *.
-    assert (Hthr3 : thr s3 = thr s) by congruence.
-    assert (G3 : get_thr s3 t = Some (PInner (Some k))) by (unfold get_thr; rewrite Hthr3; exact G).
-    assert (PH : Permutation (held (set_thr s3 t PFetchInner)) rest).
-    { rewrite held_set_thr. unfold others, rest, others. rewrite Hthr3. reflexivity. }
-    (* measures of the old state, with the held tasks split *)
+    destruct (assign_queues_spec (r_qsel r) ks 0) as [Hms Hsh].
+    set (pend := assign_queues (r_qsel r) 0 ks) in *.
+    assert (Hthr2 : thr s2 = thr s) by congruence.
+    assert (G2 : get_thr s2 t = Some (PInner (Some k))) by (unfold get_thr; rewrite Hthr2; exact G).
+    assert (PH : Permutation (held (set_thr s2 t (PEnq pend))) (ks ++ rest)).
+    { rewrite held_set_thr. unfold others, rest, others. rewrite Hthr2. cbn [pc_tasks]. rewrite Hms. reflexivity. }
+    assert (PL : Permutation (locked (set_thr s2 t (PEnq pend))) restL).
+    { rewrite locked_set_thr. unfold others, restL, others. rewrite Hthr2. reflexivity. }
     assert (PT : Permutation (map snd (queue s) ++ held s) (k :: map snd (queue s) ++ rest)).
     { rewrite PHs. symmetry. apply Permutation_middle. }
     assert (A1' := A1). rewrite (Permutation_flat_map task_pk PT) in A1'. cbn [flat_map] in A1'.
@@ -833,56 +894,99 @@ Section Main.
     { rewrite A4. rewrite (sum_perm _ _ (Permutation_map task_csrc PT)). reflexivity. }
     assert (A7' : Forall task_ok (map snd (queue s) ++ rest)).
     { eapply Permutation_Forall in A7; [|exact PT]. inversion A7; assumption. }
-    assert (Hq3 : map snd (queue s3) = map snd (queue s) ++ ks) by (rewrite Q1, F1, B1; reflexivity).
-    assert (Dnew : InvD s3 rest).
+    assert (Dnew : InvD s2 (ks ++ rest) restL).
     { constructor; unfold pk_act, pk_loc in *.
-      - rewrite Hq3, Q2, Q3, Q8, Q9, F2, F3, F6, F7, BF.
+      - rewrite F1, F2, F3, F6, F7, B1, BF.
         rewrite seq_app_perm. rewrite <- ?app_assoc, ?flat_map_app in *. perm_nat.
-      - rewrite Q7, Q8, F5, F6. lia.
-      - rewrite Hq3, Q9, F7, BF. rewrite <- ?app_assoc, ?map_app, ?sum_app in *. lia.
-      - rewrite Hq3, Q6, F4. rewrite <- ?app_assoc, ?map_app, ?sum_app in *. lia.
-      - rewrite Q2, F2. exact BA.
-      - rewrite Q3, F3. exact BL.
-      - rewrite Hq3. rewrite <- app_assoc. apply Forall_app in A7' as [X1 X2]. apply Forall_app. split; [exact X1|].
+      - rewrite F5, F6. lia.
+      - rewrite F1, F7, B1, BF. rewrite <- ?app_assoc, ?map_app, ?sum_app in *. lia.
+      - rewrite F1, F4, B1. rewrite <- ?app_assoc, ?map_app, ?sum_app in *. lia.
+      - rewrite F2. exact BA.
+      - rewrite F3. exact BL.
+      - rewrite F1, B1. apply Forall_app in A7' as [X1 X2]. apply Forall_app. split; [exact X1|].
         apply Forall_app. split; assumption.
-      - rewrite Q10, Q7, F8, F5, B4. intros Hfl. specialize (A8 Hfl).
-        (* all requested packets were already terminated: this task cannot terminate any more *)
+      - rewrite F8, F5, B4. intros Hfl. specialize (A8 Hfl).
         assert (Hlen : length (term s1) <= fresh s1).
         { assert (X := Permutation_length BP). rewrite !app_length, seq_length in X.
           assert (Y := Permutation_length A1'). rewrite !app_length, seq_length in Y. lia. }
         lia.
-      - rewrite Q4. unfold s2.
-        assert (A9' : Permutation (slocks s) (sdeps (k :: rest))) by (rewrite A9; unfold sdeps; apply Permutation_flat_map; exact PHs).
-        clear A9. rename A9' into A9. rewrite sdeps_cons in A9.
-        destruct (dep_of k) eqn:Ed; cbn [drop_dep slocks app] in *; rewrite ?B2; try exact A9.
-        assert (Hin : In sg (slocks s)) by (apply (Permutation_in sg (Permutation_sym A9)); left; reflexivity).
+      - unfold s2.
+        assert (A9' : Permutation (slocks s) (sdeps (k :: restL))) by (rewrite A9; unfold sdeps; apply Permutation_flat_map; exact PLs).
+        rewrite sdeps_cons in A9'.
+        destruct (dep_of k) eqn:Ed; cbn [drop_dep slocks app] in *; rewrite ?B2; try exact A9'.
+        assert (Hin : In sg (slocks s)) by (apply (Permutation_in sg (Permutation_sym A9')); left; reflexivity).
         pose proof (remove1_perm sg (slocks s) Hin) as PR. perm_nat.
-      - rewrite Q5. unfold s2.
-        assert (A10' : Permutation (blocks s) (bdeps (k :: rest))) by (rewrite A10; unfold bdeps; apply Permutation_flat_map; exact PHs).
-        clear A10. rename A10' into A10. rewrite bdeps_cons in A10.
-        destruct (dep_of k) eqn:Ed; cbn [drop_dep blocks app] in *; rewrite ?B3; try exact A10.
-        assert (Hin : In b (blocks s)) by (apply (Permutation_in b (Permutation_sym A10)); left; reflexivity).
+      - unfold s2.
+        assert (A10' : Permutation (blocks s) (bdeps (k :: restL))) by (rewrite A10; unfold bdeps; apply Permutation_flat_map; exact PLs).
+        rewrite bdeps_cons in A10'.
+        destruct (dep_of k) eqn:Ed; cbn [drop_dep blocks app] in *; rewrite ?B3; try exact A10'.
+        assert (Hin : In b (blocks s)) by (apply (Permutation_in b (Permutation_sym A10')); left; reflexivity).
         pose proof (remove1_perm b (blocks s) Hin) as PR. perm_nat.
-      - rewrite Q4, Q5. unfold s2. destruct (dep_of k); cbn [drop_dep slocks blocks]; rewrite ?B2, ?B3; split; try assumption; apply NoDup_remove1; assumption.
-      - apply Q12. rewrite F1, B1. exact A12. }
+      - unfold s2. destruct (dep_of k); cbn [drop_dep slocks blocks]; rewrite ?B2, ?B3; split; try assumption; apply NoDup_remove1; assumption.
+      - rewrite F1, B1. exact A12. }
     constructor.
-    - apply (InvD_ext s3); try reflexivity. apply (InvD_perm _ rest); [symmetry; exact PH|exact Dnew].
-    - apply Forall_set_thr; [|discriminate]. rewrite Hthr3. eapply Forall_impl; [|exact E].
-      intros a Ha Hx. cbn [flag set_thr]. rewrite Q10, F8, B4. auto.
-    - rewrite (len_set_thr s3 t _ _ G3), Hthr3. exact N.
-    - intros Hn. exfalso. rewrite (existsb_set_thr s3 t _ _ G3) in Hn. cbn in Hn. discriminate.
+    - apply (InvD_ext s2); try reflexivity. apply (InvD_perm _ (ks ++ rest) _ restL); [symmetry; exact PH|symmetry; exact PL|exact Dnew].
+    - apply Forall_set_thr; [rewrite Hthr2; exact Pd|exact Hsh].
+    - apply Forall_set_thr; [|discriminate]. rewrite Hthr2. eapply Forall_impl; [|exact E].
+      intros a Ha Hx. cbn [flag set_thr]. rewrite F8, B4. auto.
+    - rewrite (len_set_thr s2 t _ _ G2), Hthr2. exact N.
+    - intros Hn. exfalso. rewrite (existsb_set_thr s2 t _ _ G2) in Hn. cbn in Hn. discriminate.
   Qed.
+
+  (* ---- adding one pending task to its queue ---- *)
+  Lemma thr_pend s t l : Forall pend_ok (thr s) -> get_thr s t = Some (PEnq l) -> Forall (fun e => shared_only (snd e) (fst e)) l.
+  Proof.
+    intros F G. unfold get_thr in G. apply nth_error_In in G. rewrite Forall_forall in F. exact (F _ G).
+  Qed.
+
+  Lemma inv_enq s t q k rest0 : Inv s -> get_thr s t = Some (PEnq ((q, k) :: rest0)) ->
+    Inv (set_thr (enqueue s q k) t (PEnq rest0)).
+  Proof.
+    intros [D Pd E N L] G.
+    pose proof (thr_pend s t _ Pd G) as Hsh. inversion Hsh as [|? ? Hk Hr]; subst. cbn [fst snd] in Hk.
+    set (s1 := enqueue s q k).
+    assert (G1 : get_thr s1 t = Some (PEnq ((q, k) :: rest0))) by exact G.
+    set (rest := flat_map pc_tasks (others s t)).
+    assert (PHs : Permutation (held s) (k :: map snd rest0 ++ rest)) by (rewrite (held_of s t _ G); reflexivity).
+    assert (PH : Permutation (held (set_thr s1 t (PEnq rest0))) (map snd rest0 ++ rest)).
+    { rewrite held_set_thr. unfold others, rest, others. cbn [thr s1 enqueue set_queue pc_tasks]. reflexivity. }
+    assert (PL : Permutation (locked (set_thr s1 t (PEnq rest0))) (locked s)).
+    { rewrite locked_set_thr. unfold others. cbn [thr s1 enqueue set_queue]. rewrite (locked_of s t _ G). reflexivity. }
+    destruct D as [A1 A2 A3 A4 A5 A6 A7 A8 A9 A10 A11 A12].
+    assert (PT : Permutation (map snd (queue s) ++ held s) ((map snd (queue s) ++ [k]) ++ map snd rest0 ++ rest)).
+    { rewrite PHs. rewrite <- app_assoc. cbn [app]. reflexivity. }
+    constructor.
+    - apply (InvD_perm _ (map snd rest0 ++ rest) _ (locked s)); [symmetry; exact PH|symmetry; exact PL|].
+      constructor; unfold pk_act, pk_loc in *;
+        cbn [queue active local slocks blocks cont_rem flushed done term fresh flag thr set_thr s1 enqueue set_queue]; try assumption.
+      + rewrite (map_app snd). cbn [map snd]. rewrite <- A1. apply Permutation_app_head. apply Permutation_app_head. apply Permutation_app_tail.
+        apply Permutation_flat_map. symmetry. exact PT.
+      + rewrite (map_app snd). cbn [map snd]. rewrite <- A3. f_equal. apply sum_perm. apply Permutation_map. symmetry. exact PT.
+      + rewrite (map_app snd). cbn [map snd]. rewrite A4. apply sum_perm. apply Permutation_map. exact PT.
+      + rewrite (map_app snd). cbn [map snd]. eapply Permutation_Forall; [exact PT|exact A7].
+      + apply Forall_app. split; [exact A12|]. constructor; [exact Hk|constructor].
+    - apply Forall_set_thr; [exact Pd|exact Hr].
+    - apply Forall_set_thr; [exact E|discriminate].
+    - rewrite (len_set_thr s1 t _ _ G1). exact N.
+    - intros Hn. exfalso. rewrite (existsb_set_thr s1 t _ _ G1) in Hn. cbn in Hn. discriminate.
+  Qed.
+
+  Lemma locked_nil p : pc_tasks p = [] -> pc_locked p = [].
+  Proof. destruct p as [| [k|] | | | [k|] | l | | | | |]; cbn; intros H; try reflexivity; discriminate. Qed.
 
   Theorem trans_inv s s' : Inv s -> trans s s' -> Inv s'.
   Proof.
     intros HI T. destruct T.
     - eapply inv_move; eauto.
+      match goal with H : forall l, ?p <> PEnq l |- pend_ok ?p => destruct p; cbn; try exact I; exfalso; eapply H; reflexivity end.
     - discriminate.
-    - eapply inv_fetch; eauto.
-    - eapply inv_none; eauto.
+    - eapply inv_fetch; eassumption.
+    - eapply inv_none; try eassumption; try (apply locked_nil; assumption).
     - eapply inv_flag; eauto.
     - eapply inv_premature; eauto.
     - eapply inv_run; eauto.
+    - eapply inv_enq; eauto.
+    - eapply inv_move; eauto; try reflexivity; try discriminate; try exact I.
   Qed.
 
   (* ---------- initial state and reachability ---------- *)
@@ -892,6 +996,8 @@ Section Main.
 
   Lemma held_repeat_start n : flat_map pc_tasks (repeat PStart n) = [].
   Proof. induction n; cbn; auto. Qed.
+  Lemma locked_repeat_start n : flat_map pc_locked (repeat PStart n) = [].
+  Proof. induction n; cbn; auto. Qed.
 
   Lemma init_inv srcs crem : init_ok srcs crem -> 0 < NTHR -> Inv (init NTHR srcs crem).
   Proof.
@@ -900,7 +1006,7 @@ Section Main.
     assert (Hp : flat_map task_pk srcs = []).
     { clear -H1. induction H1 as [|k l Hk Hl IH]; [reflexivity|]. cbn [flat_map]. rewrite IH. destruct k; cbn in *; try reflexivity; contradiction. }
     constructor.
-    - unfold held, init. cbn [thr]. rewrite held_repeat_start.
+    - unfold held, locked, init. cbn [thr]. rewrite held_repeat_start, locked_repeat_start.
       constructor; unfold pk_act, pk_loc; cbn [queue active local slocks blocks cont_rem flushed done term fresh flag thr];
         rewrite ?Hm, ?app_nil_r; cbn [flat_map app seq length].
       + rewrite Hp. reflexivity.
@@ -916,6 +1022,7 @@ Section Main.
       + split; constructor.
       + apply Forall_forall. intros e He. apply in_map_iff in He as [k [<- Hk]]. cbn.
         rewrite Forall_forall in H1. specialize (H1 k Hk). destruct k; cbn in *; auto; contradiction.
+    - cbn [thr init]. apply Forall_forall. intros p Hp'. apply repeat_spec in Hp'. subst. exact I.
     - cbn [thr init flag]. apply Forall_forall. intros p Hp'. apply repeat_spec in Hp'. subst. discriminate.
     - cbn [thr init]. apply repeat_length.
     - cbn [thr init]. intros Hn. exfalso. destruct NTHR; [lia|]. cbn in Hn. discriminate.
@@ -934,7 +1041,7 @@ Section Main.
   Qed.
 
   (* ---------- consequences ---------- *)
-  Lemma all_done_everything_empty s : InvD s (held s) -> done s = NREQ ->
+  Lemma all_done_everything_empty s : InvD s (held s) (locked s) -> done s = NREQ ->
     pk_act s = [] /\ pk_loc s = [] /\ flat_map task_pk (all_tasks s) = [] /\ Permutation (term s) (seq 0 NREQ)
     /\ pending s = 0 /\ fresh s = NREQ.
   Proof.
@@ -959,7 +1066,7 @@ Section Main.
   Theorem packets_accounted srcs crem s : init_ok srcs crem -> 0 < NTHR -> reachable srcs crem s ->
     Permutation (packets s) (seq 0 (fresh s)) /\ NoDup (packets s) /\ done s = length (term s) /\ fresh s + pending s = NREQ.
   Proof.
-    intros Hi HT Hr. destruct (reachable_inv _ _ _ Hi HT Hr) as [[A1 A2 A3 A4 A5 A6 A7 A8 A9 A10 A11 A12] _ _ _].
+    intros Hi HT Hr. destruct (reachable_inv _ _ _ Hi HT Hr) as [[A1 A2 A3 A4 A5 A6 A7 A8 A9 A10 A11 A12] _ _ _ _].
     assert (P : Permutation (packets s) (seq 0 (fresh s))) by exact A1.
     repeat split; auto. eapply Permutation_NoDup; [symmetry; exact P|apply seq_NoDup].
   Qed.
@@ -968,18 +1075,17 @@ Section Main.
   Theorem flag_cleared_only_when_all_done srcs crem s : init_ok srcs crem -> 0 < NTHR -> reachable srcs crem s ->
     flag s = false -> Permutation (term s) (seq 0 NREQ) /\ done s = NREQ.
   Proof.
-    intros Hi HT Hr Hf. destruct (reachable_inv _ _ _ Hi HT Hr) as [D _ _ _].
-    pose proof (d_flag _ _ D Hf) as Hd. destruct (all_done_everything_empty s D Hd) as (_ & _ & _ & P & _ & _). auto.
+    intros Hi HT Hr Hf. destruct (reachable_inv _ _ _ Hi HT Hr) as [D _ _ _ _].
+    pose proof (d_flag _ _ _ D Hf) as Hd. destruct (all_done_everything_empty s D Hd) as (_ & _ & _ & P & _ & _). auto.
   Qed.
 
-  (* 3. two threads never hold tasks with the same dependency: tasks touching one subgrid never overlap *)
+  (* 3. threads never hold tasks with the same dependency at the same time *)
   Theorem mutual_exclusion srcs crem s : init_ok srcs crem -> 0 < NTHR -> reachable srcs crem s ->
-    NoDup (sdeps (held s)) /\ NoDup (bdeps (held s)).
+    NoDup (sdeps (locked s)) /\ NoDup (bdeps (locked s)).
   Proof.
-    intros Hi HT Hr. destruct (reachable_inv _ _ _ Hi HT Hr) as [[A1 A2 A3 A4 A5 A6 A7 A8 A9 A10 [N1 N2] A12] _ _ _].
+    intros Hi HT Hr. destruct (reachable_inv _ _ _ Hi HT Hr) as [[A1 A2 A3 A4 A5 A6 A7 A8 A9 A10 [N1 N2] A12] _ _ _ _].
     split; eapply Permutation_NoDup; eauto.
   Qed.
-
 
   (* 4. when every thread has left the loop nothing is left behind *)
   Theorem clean_at_exit srcs crem s : init_ok srcs crem -> 0 < NTHR -> reachable srcs crem s ->
@@ -987,23 +1093,25 @@ Section Main.
     queue s = [] /\ active s = [] /\ local s = [] /\ slocks s = [] /\ blocks s = []
     /\ Permutation (term s) (seq 0 NREQ) /\ done s = NREQ /\ flag s = false.
   Proof.
-    intros Hi HT Hr Hall. destruct (reachable_inv _ _ _ Hi HT Hr) as [D E N L].
+    intros Hi HT Hr Hall. destruct (reachable_inv _ _ _ Hi HT Hr) as [D Pd E N L].
     assert (Hflag : flag s = false).
     { destruct (thr s) as [|p l] eqn:Et; [cbn in N; lia|].
       inversion E as [|? ? Hp _]; subst. inversion Hall as [|? ? Hp' _]; subst. exact (Hp eq_refl). }
     assert (Hina : existsb active_pc (thr s) = false).
     { clear -Hall. induction Hall as [|p l Hp Hl IH]; [reflexivity|]. cbn [existsb]. rewrite IH, Hp. reflexivity. }
-    destruct (L Hina) as [Hh Hq].
-    pose proof (d_flag _ _ D Hflag) as Hd.
+    destruct (L Hina) as (Hh & Hlk & Hq).
+    pose proof (d_flag _ _ _ D Hflag) as Hd.
     destruct (all_done_everything_empty s D Hd) as (E1 & E2 & E3 & P & E4 & E5).
     destruct D as [A1 A2 A3 A4 A5 A6 A7 A8 A9 A10 A11 A12].
     assert (Hact : active s = []) by (apply nonempty_flat_nil; assumption).
     assert (Hloc : local s = []) by (apply nonempty_flat_nil; assumption).
-    rewrite Hh in A9, A10. cbn in A9, A10.
+    rewrite Hlk in A9, A10. cbn in A9, A10.
     apply Permutation_sym, Permutation_nil in A9. apply Permutation_sym, Permutation_nil in A10.
     assert (Hqueue : queue s = []).
     { destruct (queue s) as [|[q k] l] eqn:Eq; [reflexivity|exfalso].
-      unfold all_tasks, pending in *. rewrite Hh, app_nil_r in *. try rewrite Eq in E3; try rewrite Eq in E4; try rewrite Eq in A7; try rewrite Eq in A12; try rewrite Eq in Hq; try rewrite Eq in A3. cbn [map snd flat_map sum] in *.
+      unfold all_tasks, pending in *. rewrite Hh, app_nil_r in *.
+      try rewrite Eq in E3; try rewrite Eq in E4; try rewrite Eq in A7; try rewrite Eq in A12; try rewrite Eq in Hq; try rewrite Eq in A3.
+      cbn [map snd flat_map sum] in *.
       inversion A7 as [|? ? Hk _]; subst. inversion A12 as [|? ? Hs _]; subst. inversion Hq as [|? ? Hq0 _]; subst.
       cbn [fst snd] in *.
       destruct k as [sg c|b c|b|sg ps|sg ps]; cbn [task_ok task_src task_pk shared_only] in *; try lia;
@@ -1022,9 +1130,9 @@ Definition o7_r0 := mkRun [] [] [] (fun _ => 0).
 Definition o7_schedule : list label :=
   [ LFetch 1 0;
     LFetchNone 0; LHead 0; LPrematureSkip 0; LFetchNone 0; LInner 0; LCheck1 0; LCheck2 0;
-    LHead 1; LRun 1 (mkRun [] [] [0; 0] (fun _ => 1));
-    LFetch 1 0; LRun 1 (mkRun [0; 1] [] [] (fun _ => 0));
-    LFetch 1 0; LRun 1 o7_r0;
+    LHead 1; LRun 1 (mkRun [] [] [0; 0] (fun _ => 1)); LEnq 1; LEnq 1; LEnq 1; LEnq 1;
+    LFetch 1 0; LRun 1 (mkRun [0; 1] [] [] (fun _ => 0)); LEnq 1;
+    LFetch 1 0; LRun 1 o7_r0; LEnq 1;
     LFetch 0 0;
     LFetchNone 1; LInner 1; LCheck1 1; LCheck2 1;
     LHead 1;
